@@ -201,7 +201,9 @@ func nspecs() []nspec {
 
 var (
 	nVariants = []string{"never-set", "set-before", "same-block"}
-	nKinds    = []string{"abort", "throw", "caught", "testinvoke"}
+	// caught-nested: the setter runs two calls down, its own layer is merged into the
+	// middle callee's layer (TRY around it completes), the middle callee then throws
+	nKinds = []string{"abort", "throw", "caught", "caught-nested", "testinvoke"}
 )
 
 type ncase struct {
@@ -474,6 +476,14 @@ func (nr *nrun) run(cs ncase) (what, detail []string, err error) {
 	case "caught":
 		tScript = urun(ua, []any{chainx.OpTry, []any{[]any{chainx.OpRun, ub.BytesBE(), 15, []any{op, []any{chainx.OpThrow}}}}, []any{}})
 		twinScript = urun(ua, []any{chainx.OpTry, []any{[]any{chainx.OpRun, ub.BytesBE(), 15, []any{[]any{chainx.OpThrow}}}}, []any{}})
+	case "caught-nested":
+		uc := w.hashes[pC]
+		mid := func(inner []any) []any {
+			return []any{chainx.OpTry, []any{[]any{chainx.OpRun, uc.BytesBE(), 15, []any{
+				[]any{chainx.OpTry, []any{[]any{chainx.OpRun, ub.BytesBE(), 15, inner}}, []any{}},
+				[]any{chainx.OpThrow}}}}, []any{}}
+		}
+		tScript, twinScript = urun(ua, mid([]any{op})), urun(ua, mid([]any{}))
 	case "testinvoke":
 		tScript = urun(ub, op)
 	}
@@ -522,7 +532,7 @@ func (nr *nrun) run(cs ncase) (what, detail []string, err error) {
 			return nil, nil, err
 		}
 		wantT := "FAULT"
-		if cs.Kind == "caught" {
+		if cs.Kind == "caught" || cs.Kind == "caught-nested" {
 			wantT = "HALT"
 		}
 		if s := X.vmState(T.Hash()); s != wantT {
